@@ -2,6 +2,7 @@ package main
 
 import (
 	"fmt"
+	"go/constant"
 	"go/token"
 	"go/types"
 	"sort"
@@ -420,14 +421,44 @@ func ruleUpdateWritersUnconditional(c *Ctx, rule string) {
 				return
 			}
 			seen[w] = true
-			flow := mustFlow(w, facts{}, func(f facts, j ssa.Instruction) facts {
-				if c2, ok := j.(ssa.CallInstruction); ok {
-					if k := callKey(c2); strings.HasPrefix(k, "(*Encoder).") || strings.Contains(k, "newResponseEncoder") {
-						return f.with("wrote")
+			// helpers that write on all of their paths count as writes
+			var alwaysWrites func(h *ssa.Function, d int) bool
+			awCache := map[*ssa.Function]int{}
+			var genW func(d int) func(f facts, j ssa.Instruction) facts
+			genW = func(d int) func(f facts, j ssa.Instruction) facts {
+				return func(f facts, j ssa.Instruction) facts {
+					if c2, ok := j.(ssa.CallInstruction); ok {
+						if k := callKey(c2); strings.HasPrefix(k, "(*Encoder).") || strings.Contains(k, "newResponseEncoder") {
+							return f.with("wrote")
+						}
+						if h := staticCallee(c2); h != nil && d > 0 && inModule(h) && alwaysWrites(h, d-1) {
+							return f.with("wrote")
+						}
+					}
+					return f
+				}
+			}
+			alwaysWrites = func(h *ssa.Function, d int) bool {
+				if v, ok := awCache[h]; ok {
+					return v == 1
+				}
+				awCache[h] = 0
+				if h.Blocks == nil {
+					return false
+				}
+				hf := mustFlow(h, facts{}, genW(d), nil)
+				all := len(returnsOf(h)) > 0
+				for _, r := range returnsOf(h) {
+					if f, reach := hf.at(r); reach && !f.has("wrote") {
+						all = false
 					}
 				}
-				return f
-			}, nil)
+				if all {
+					awCache[h] = 1
+				}
+				return all
+			}
+			flow := mustFlow(w, facts{}, genW(2), nil)
 			bad := token.NoPos
 			for _, r := range returnsOf(w) {
 				f, reach := flow.at(r)
@@ -1902,7 +1933,28 @@ func ruleAndSharesElements(c *Ctx, rule string) {
 	}
 	recv, other := and.Params[0], and.Params[1]
 	n := 0
-	for _, g := range withAnon(and) {
+	scan := withAnon(and)
+	// the appends may live in a helper called as helper(criteria, other)
+	for _, h := range helperClosure(and, 2) {
+		if h == and || h.Parent() != nil || len(h.Params) != 2 {
+			continue
+		}
+		okCall := false
+		for _, site := range callSitesOf(p, h) {
+			args := site.Common().Args
+			if site.Parent() == and && len(args) == 2 && (args[0] == ssa.Value(recv) || paramOf(args[0]) == recv) && (args[1] == ssa.Value(other) || paramOf(args[1]) == other) {
+				okCall = true
+			}
+		}
+		if okCall {
+			scan = append(scan, h)
+		}
+	}
+	for _, g := range scan {
+		recv, other := recv, other
+		if g != and && g.Parent() == nil {
+			recv, other = g.Params[0], g.Params[1]
+		}
 		allInstrs(g, func(i ssa.Instruction) {
 			st, ok := i.(*ssa.Store)
 			if !ok {
@@ -2172,55 +2224,123 @@ func ruleTrailingLiteralSizes(c *Ctx, rule string) {
 		}
 		return false
 	}
-	rejects := func(b *ssa.BasicBlock) bool {
-		for _, i := range b.Instrs {
-			if r, ok := i.(*ssa.Return); ok && len(r.Results) == 2 {
-				if k, ok := unspill(r.Results[1]).(*ssa.Const); ok && k.Value != nil && k.Value.String() == "false" {
-					return true
+	// walk the recogniser for "the header parsed, the size is 0": which return is reached?
+	var parse *ssa.Call
+	allInstrs(helper, func(i ssa.Instruction) {
+		if call, ok := i.(*ssa.Call); ok {
+			if o := calleeObj(call); o != nil && o.Pkg() != nil && o.Pkg().Path() == "strconv" {
+				parse = call
+			}
+		}
+	})
+	n := 0
+	if parse != nil {
+		isErr := func(v ssa.Value) bool {
+			for k := 0; k < 3; k++ {
+				switch x := v.(type) {
+				case *ssa.Extract:
+					return x.Tuple == ssa.Value(parse) && x.Index == 1
+				case *ssa.UnOp:
+					if al, ok := x.X.(*ssa.Alloc); ok {
+						for _, ref := range *al.Referrers() {
+							if st, ok := ref.(*ssa.Store); ok && st.Addr == ssa.Value(al) {
+								v = st.Val
+							}
+						}
+						continue
+					}
+					return false
+				default:
+					return false
 				}
 			}
+			return false
 		}
-		return false
-	}
-	n := 0
-	for _, b := range helper.Blocks {
-		if len(b.Instrs) == 0 {
-			continue
-		}
-		ifi, ok := b.Instrs[len(b.Instrs)-1].(*ssa.If)
-		if !ok {
-			continue
-		}
-		for _, a := range atomsOf(ifi.Cond, true) {
-			if a.Const == nil || !isSize(a.V) {
-				continue
+		var prev *ssa.BasicBlock
+		cur := parse.Block()
+		var eval func(v ssa.Value) (bool, bool)
+		eval = func(v ssa.Value) (bool, bool) {
+			switch x := v.(type) {
+			case *ssa.Const:
+				if x.Value != nil && x.Value.Kind() == constant.Bool {
+					return constant.BoolVal(x.Value), true
+				}
+			case *ssa.UnOp:
+				if x.Op == token.NOT {
+					r, ok := eval(x.X)
+					return !r, ok
+				}
+			case *ssa.Phi:
+				if x.Block() == cur && prev != nil {
+					for k, pr := range cur.Preds {
+						if pr == prev {
+							return eval(x.Edges[k])
+						}
+					}
+				}
+			case *ssa.BinOp:
+				if isErr(x.X) && isNilConst(x.Y) {
+					return x.Op == token.EQL, x.Op == token.EQL || x.Op == token.NEQ
+				}
+				if isSize(x.X) {
+					if k, ok := constInt(x.Y); ok {
+						switch x.Op {
+						case token.LSS:
+							return 0 < k, true
+						case token.LEQ:
+							return 0 <= k, true
+						case token.GTR:
+							return 0 > k, true
+						case token.GEQ:
+							return 0 >= k, true
+						case token.EQL:
+							return 0 == k, true
+						case token.NEQ:
+							return 0 != k, true
+						}
+					}
+				}
 			}
-			k, ok := constInt(a.Const)
-			if !ok {
-				continue
+			return false, false
+		}
+		decided := false
+		accepted := false
+		var at token.Pos
+		for step := 0; step < 24 && !decided; step++ {
+			switch t := cur.Instrs[len(cur.Instrs)-1].(type) {
+			case *ssa.If:
+				v, ok := eval(t.Cond)
+				if !ok {
+					step = 99
+					break
+				}
+				at = condPos(t)
+				prev = cur
+				if v {
+					cur = cur.Succs[0]
+				} else {
+					cur = cur.Succs[1]
+				}
+			case *ssa.Jump:
+				prev, cur = cur, cur.Succs[0]
+			case *ssa.Return:
+				if len(t.Results) == 2 {
+					rv := unspill(t.Results[1])
+					if b, ok := eval(rv); ok {
+						decided, accepted = true, b
+						if !at.IsValid() {
+							at = t.Pos()
+						}
+					}
+				}
+				step = 99
+			default:
+				step = 99
 			}
+		}
+		if decided {
 			n++
-			// does size == 0 take the true edge?
-			var t bool
-			switch a.Op {
-			case token.LSS:
-				t = 0 < k
-			case token.LEQ:
-				t = 0 <= k
-			case token.GTR:
-				t = 0 > k
-			case token.GEQ:
-				t = 0 >= k
-			case token.EQL:
-				t = 0 == k
-			case token.NEQ:
-				t = 0 != k
-			}
-			target := b.Succs[1]
-			if t {
-				target = b.Succs[0]
-			}
-			c.check(!rejects(target), rule, fmt.Sprintf("%s: size test#%d", fnKey(helper), n), condPos(ifi),
+			c.check(accepted, rule, fnKey(helper)+": size 0 is a literal", at,
 				"a header announcing zero octets is recognised as a literal",
 				"a trailing `{0+}` is not recognised as a literal header (the size test rejects 0): after a refused command ending in an empty non-synchronising literal, the rest of that command's line is read as a new command and executed")
 		}
@@ -2326,30 +2446,60 @@ func ruleEmbeddedMessageTypes(c *Ctx, rule string) {
 					return
 				}
 				pos = st.Pos()
+				seen := map[ssa.Value]bool{}
+				var walk func(v ssa.Value, d int)
+				condsOf := func(g *ssa.Function, b *ssa.BasicBlock) {
+					gpd := postDominators(g)
+					for x := range transitiveDeps(g, gpd, b) {
+						if ifi, isIf := x.Instrs[len(x.Instrs)-1].(*ssa.If); isIf {
+							walk(ifi.Cond, 0)
+						}
+					}
+				}
+				defer func() {
+					// the guard may sit at the call sites of a helper holding the store
+					for _, site := range callSitesOf(p, fn) {
+						if site.Parent() != nil && pkgPathOf(site.Parent()) == pkgPathOf(fn) {
+							condsOf(site.Parent(), site.Block())
+						}
+					}
+				}()
+				walk = func(v ssa.Value, d int) {
+					if v == nil || seen[v] || d > 6 {
+						return
+					}
+					seen[v] = true
+					if s, ok := constString(v); ok && s != "" {
+						raw[strings.ToLower(s)] = true
+					}
+					// a predicate helper: the constants it compares with
+					if call, ok := v.(*ssa.Call); ok {
+						if h := staticCallee(call); h != nil && inModule(h) && h.Blocks != nil && h.Signature.Results().Len() == 1 {
+							allInstrs(h, func(j ssa.Instruction) {
+								for _, op := range j.Operands(nil) {
+									if *op != nil {
+										if s, ok := constString(*op); ok && s != "" {
+											raw[strings.ToLower(s)] = true
+										}
+									}
+								}
+							})
+						}
+					}
+					if in, ok := v.(ssa.Instruction); ok {
+						for _, op := range in.Operands(nil) {
+							if *op != nil {
+								if _, isFn := (*op).(*ssa.Function); !isFn {
+									walk(*op, d+1)
+								}
+							}
+						}
+					}
+				}
 				for x := range transitiveDeps(fn, pd, st.Block()) {
 					ifi, isIf := x.Instrs[len(x.Instrs)-1].(*ssa.If)
 					if !isIf {
 						continue
-					}
-					seen := map[ssa.Value]bool{}
-					var walk func(v ssa.Value, d int)
-					walk = func(v ssa.Value, d int) {
-						if v == nil || seen[v] || d > 6 {
-							return
-						}
-						seen[v] = true
-						if s, ok := constString(v); ok && s != "" {
-							raw[strings.ToLower(s)] = true
-						}
-						if in, ok := v.(ssa.Instruction); ok {
-							for _, op := range in.Operands(nil) {
-								if *op != nil {
-									if _, isFn := (*op).(*ssa.Function); !isFn {
-										walk(*op, d+1)
-									}
-								}
-							}
-						}
 					}
 					walk(ifi.Cond, 0)
 				}
@@ -2467,4 +2617,80 @@ func ruleCopySnapshotComplete(c *Ctx, rule string) {
 	if n == 0 {
 		c.unresolvedRoot("option structs built by the in-memory backend itself")
 	}
+}
+
+// connFailurePredicate: h(err) is true exactly when err is non-nil and is not
+// the server's tagged refusal (*imap.Error): every return is the constant
+// false on the err == nil edge, or !errors.As(err, **imap.Error).
+func connFailurePredicate(h *ssa.Function) bool {
+	if h == nil || h.Blocks == nil || !inModule(h) || len(h.Params) == 0 || h.Signature.Results().Len() != 1 {
+		return false
+	}
+	var prm *ssa.Parameter
+	for _, q := range h.Params {
+		if isErrorType(q.Type()) {
+			prm = q
+		}
+	}
+	if prm == nil {
+		return false
+	}
+	isAs := func(v ssa.Value) bool {
+		call, ok := v.(*ssa.Call)
+		if !ok {
+			return false
+		}
+		o := calleeObj(call)
+		if o == nil || o.Pkg() == nil || o.Pkg().Path() != "errors" || o.Name() != "As" || len(call.Call.Args) != 2 {
+			return false
+		}
+		t := call.Call.Args[1].Type()
+		if mi, ok := call.Call.Args[1].(*ssa.MakeInterface); ok {
+			t = mi.X.Type()
+		}
+		return strings.Contains(t.String(), modPath+".Error") && (call.Call.Args[0] == ssa.Value(prm) || paramOf(call.Call.Args[0]) == prm)
+	}
+	flow := mustFlow(h, facts{}, nil, func(f facts, b *ssa.BasicBlock, s int) facts {
+		for _, a := range edgeAtoms(b, s) {
+			if (a.V == ssa.Value(prm) || paramOf(a.V) == prm) && a.Nil == 1 {
+				f = f.with("err-nil")
+			}
+			if a.True == 1 && isAs(a.V) {
+				f = f.with("refusal")
+			}
+			if a.True == -1 && isAs(a.V) {
+				f = f.with("not-refusal")
+			}
+		}
+		return f
+	})
+	some := false
+	for _, r := range returnsOf(h) {
+		f, reach := flow.at(r)
+		if !reach {
+			continue
+		}
+		v := unspill(r.Results[0])
+		switch x := v.(type) {
+		case *ssa.Const:
+			if x.Value == nil {
+				return false
+			}
+			if x.Value.String() == "false" {
+				if !f.has("err-nil") && !f.has("refusal") {
+					return false
+				}
+			} else if !f.has("not-refusal") {
+				return false
+			}
+		case *ssa.UnOp:
+			if x.Op != token.NOT || !isAs(x.X) {
+				return false
+			}
+			some = true
+		default:
+			return false
+		}
+	}
+	return some
 }
